@@ -638,7 +638,7 @@ fn find_fn<'f>(items: &'f [Item], loc: &Value) -> std::result::Result<Found<'f>,
                     }
                 }
                 Item::Fn(f) if kind == "free" => {
-                    if f.sig.ident == name && want_mod.map(|m| Some(m) == cur_mod).unwrap_or(cur_mod.is_none() || want_mod.is_none()) {
+                    if f.sig.ident == name && want_mod.map(|m| Some(m) == cur_mod).unwrap_or(cur_mod.is_none()) {
                         hits.push(Found::FreeFn(f));
                     }
                 }
